@@ -44,3 +44,10 @@ Print Assumptions C14_image_size_nearest.
 Theorem C14_guard_off_boundary : forall p a b g2, (0 < g2)%Z -> far_seg p a b g2 = true -> on_seg p a b = false.
 Proof. exact far_seg_off. Qed.
 Print Assumptions C14_guard_off_boundary.
+
+(** the guard of the sample oracle means what it says: a guarded sample is at squared distance at least g2 from EVERY point
+    a + (sn/sd)(b-a), 0 <= sn <= sd, of the edge (scaled by sd^2 to stay in Z) *)
+Theorem C14_guard_is_distance : forall p a b g2 sn sd, (0 < sd)%Z -> (0 <= sn <= sd)%Z ->
+  far_seg p a b g2 = true -> (g2 * (sd * sd) <= sdist2 p a b sn sd)%Z.
+Proof. exact far_seg_sound. Qed.
+Print Assumptions C14_guard_is_distance.
